@@ -58,6 +58,44 @@ VARINPUTS = ["A = B", "A = 其B", "A = （F）", "A = 【1，2】#5", "A = 1 / 0
              "A = 数值", "A = 以数值（自增：1）", "A = （显示：1）", "A = 空之甲", "A = “x” % 【1】", "A=1；；B=2", "其A = 1", "A#1 = 2", "A = （异常）", "A = （新建异常：1）", "A = {1", "A = 此"]
 
 
+# input-variable texts that parse but contain no assignment at all / other program sections
+VARINPUTS2 = ["\n", "\n\n", " ", "\t", "// c", "/* c */", "注：x", "注：“a\nb”", "导入《@JSON》", "导入《@JSON》\nA = 1", "A = （显示：1），得到R\nB = （R）", "A = （显示：1），得到R", "如何F？\n    输出1", "如何F？\n    输出1\nA = （F）",
+              "定义K：\n    其a = 1", "输入X", "输入X\nA = X", "拦截异常：\n    输出1", "A = 1\n拦截异常：\n    输出1", "A = 1\n\n", "输出1", "A = 1\n输出A", "如果真：\n    A = 1", "每当真：\n    结束循环",
+              "抛出异常：“x”！", "A = 1 且", "A = 以", "A = （", "A == 1", "令A、B = 1", "A、B = 1", "A = B = 1", "A = 1，B = 2", "甲 = 1；乙 = 甲 + 1；丙 = 【甲，乙】"]
+
+
+def weird_programs():
+    """values of unusual SHAPE (self-containing collections, objects that reach themselves, results of bodies that
+    produce nothing) x every way of consuming a value"""
+    builders = {
+        "dict-in-itself": "令怪 = 【“a” = 1】\n以怪（写入：“k”、怪）\n",
+        "list-in-itself-append": "令怪 = 【1】\n以怪（后增：怪）\n",
+        "list-in-itself-prepend": "令怪 = 【1】\n以怪（前增：怪）\n",
+        "list-in-itself-insert": "令怪 = 【1】\n以怪（新增：怪、1）\n",
+        "two-lists-in-each-other": "令怪 = 【1】\n令妖 = 【2】\n以怪（后增：妖）\n以妖（后增：怪）\n",
+        "list-in-dict-in-list": "令怪 = 【1】\n令妖 = 【“a” = 1】\n以怪（后增：妖）\n以妖（写入：“b”、怪）\n",
+        "object-property-is-itself": "定义环：\n    其下 = 空\n令怪 = （新建环）\n怪之下 = 怪\n",
+        "object-in-its-own-list": "定义环：\n    其表 = 【】\n令怪 = （新建环）\n以怪之表（后增：怪）\n",
+        "result-of-body-with-only-definitions": "如何怪法？\n    如何内？\n        输出1\n令怪 = （怪法）\n",
+        "result-of-empty-handler": "如何怪法？\n    抛出异常：“x”！\n    拦截异常：\n        令丑 = 1\n令怪 = （怪法）\n",
+        "result-of-declaration-body": "如何怪法？\n    令丑 = 1\n令怪 = （怪法）\n",
+        "type-value": "定义环：\n    其下 = 空\n令怪 = 环\n",
+        "method-value": "如何怪法？\n    输出1\n令怪 = 怪法\n",
+    }
+    consumers = {
+        "display": "（显示：怪）\n输出1\n", "display-call": "（显示：（怪法））\n输出1\n", "return": "输出怪\n", "format": "输出“{}” % 【怪】\n", "json": "输出（生成JSON：【“v” = 怪】）\n", "copy": "令丙 = 怪\n输出1\n",
+        "equal-self": "输出怪 为 怪\n", "equal-other": "输出怪 == 【1】\n", "contains": "输出以【怪】（包含：怪）\n", "find": "输出以【1，怪】（寻找：怪）\n",
+        "iterate": "遍历怪：\n    （显示：1）\n输出1\n", "in-literal": "输出【怪，怪】\n", "throw": "抛出异常：怪！\n", "concat": "输出“x” + 怪\n", "index": "输出怪#1\n",
+        "text": "输出怪之文本\n", "length": "输出怪之长度\n", "join": "输出以【怪】（拼接：“,”）\n", "merge": "输出以【1】（合并：怪）\n",
+    }
+    out = []
+    for bn, bsrc in builders.items():
+        for cn, csrc in consumers.items():
+            if cn == "display-call" and "怪法" not in bsrc: continue
+            out.append(("%s/%s" % (bn, cn), "导入《@JSON》\n" + bsrc + csrc))
+    return out
+
+
 def run(ctx):
     znh = common.build_harness(ctx)
     rnd = random.Random(ctx.seed)
@@ -102,7 +140,9 @@ def run(ctx):
         for k in kinds:
             for a in (pool_ids if not quick else rnd.sample(pool_ids, 6)):
                 cases.append(dict(id=len(cases), recv=k, acc="form", name="", args=[a], src=f)); meta.append(("form", f))
-    for t in VARINPUTS:
+    for tag, src in weird_programs():
+        cases.append(dict(id=len(cases), recv="null", acc="form", name="", args=["n0"], src=src.replace("导入《@JSON》\n", "导入《@JSON》\n输入甲、乙1\n", 1))); meta.append(("shape", tag))
+    for t in VARINPUTS + VARINPUTS2:
         cases.append(dict(id=len(cases), recv="null", acc="var", name="", args=[], var=t)); meta.append(("varinput", t))
     res = common.run_harness(ctx, znh, "inv", cases, timeout=3000, args=["-t", "10"])
     if len(res) != len(cases):
@@ -113,12 +153,12 @@ def run(ctx):
         kind, v = meta[r["id"]]
         c = cases[r["id"]]
         counts[r["obs"]] = counts.get(r["obs"], 0) + 1
-        where = ("%s %s.%s(%s)" % (c["acc"], c["recv"], c["name"], ",".join(c["args"]))) if kind.startswith("inv") else (c.get("var") or c.get("src", "").splitlines()[-1] + " on " + c["recv"] + "," + ",".join(c["args"]))
+        where = ("program " + v) if kind == "shape" else ("%s %s.%s(%s)" % (c["acc"], c["recv"], c["name"], ",".join(c["args"]))) if kind.startswith("inv") else (c.get("var") or c.get("src", "").splitlines()[-1] + " on " + c["recv"] + "," + ",".join(c["args"]))
         if r["obs"] in ("panic", "exit", "timeout", "nil-value", "harness-error"):
             site = ""
             m = re.search(r"pkg/[\w/]+\.go:\d+|stdlib/[\w/]+\.go:\d+", (r.get("stack") or "") + (r.get("detail") or ""))
             if m: site = m.group(0)
-            sig = "%s:%s:%s" % (r["obs"], (c["recv"] + "." + c["name"]) if kind.startswith("inv") else kind, site)
+            sig = "%s:%s:%s" % (r["obs"], (c["recv"] + "." + c["name"]) if kind.startswith("inv") else (kind if kind != "shape" else "shape:" + v), site)
             common.report(ctx, sig, "%s -> %s %s" % (where, r["obs"], (r.get("detail") or r.get("msg") or "")[:300]), dict(case=c, result=r))
         elif r["obs"] == "syntax-error":
             common.report(ctx, "harness:syntax", "generated program does not parse: %s" % r.get("src"), dict(case=c, result=r))
@@ -130,8 +170,9 @@ def run(ctx):
                     "argument tuples of arity <= 2 over an 18-value boundary pool (0,-1,1.5,1e308,NaN,Inf,-2^63,'', 'a', astral text, 真, 空, 【】,【1】,【=】, a dictionary, an object, a "
                     "function) = 281k invocations with the outcome the validators' patterns demand (quick: all of arity <= 1 + a seeded 45000); plus random tuples of arity 3-4 "
                     "for every method/function/constructor, 38 operator/index/assignment/iteration/construction/throw/format forms x 11 receiver kinds x pool values, and %d "
-                    "input-variable texts. Every case runs in a worker process: the outcome class must be value or Zn error - never panic, nil result, exit or hang. The member "
-                    "tables extracted from the Go sources must equal the spec's tables" % len(VARINPUTS),
+                    "input-variable texts; %d programs that build a value of unusual shape (a collection that contains itself, directly or through another collection or an object; the result of a body that "
+                    "produces nothing; a type or method as a value) and consume it in every way (display, return, format, JSON, copy, compare, search, iterate, throw, join, merge). Every case runs in a worker process: the outcome class must be value or Zn error - never panic, nil result, exit or hang. The member "
+                    "tables extracted from the Go sources must equal the spec's tables" % (len(VARINPUTS) + len(VARINPUTS2), len(weird_programs())),
                outcome_counts=counts, illtyped_calls_returning_a_value=illtyped_accepted, unmodelled_members=unmodelled, stale_members=stale)
     if (unmodelled or stale) and not ctx.violations:
         common.write_evidence(ctx, "model_checking", dict(cov, states=ctx.states, transitions=ctx.transitions), ["unmodelled member -> no verdict"], 0)
